@@ -170,11 +170,11 @@ theorem rd32_flip_ne (w w' : Bytes) (a j : Nat) (ho : OctetsOk w) (ho' : OctetsO
 both accepted as signed (same key, request MAC, no running context), and the very same (input, MAC) pair reaches
 the comparison, then the flipped octet is in the message ID, in the owner name of the TSIG RR, in its TTL
 field, or in the algorithm name — nowhere else. -/
-theorem flip_same_pair_location (V V' : Verifier) (tbl : List AlgEntry) (w : Bytes) (k : Key) (now now' : Nat) (rm : Bytes)
+theorem flip_same_pair_location (V V' : Verifier) (tbl : List AlgEntry) (w : Bytes) (k k' : Key) (now now' : Nat) (rm : Bytes)
     (ctx : Option Ctx) (multi : Bool) (s p s' p' : Nat) (o o' : Name) (rd rd' : Rdata) (c c' : Ctx) (c1 c1' : Option Ctx)
     (i : Nat) (ho : OctetsOk w) (hi : i / 8 < w.length) (hfirst : multi = false ∨ ctx = none)
     (a : Accepted V tbl w k now rm ctx multi s p o rd c c1)
-    (a' : Accepted V' tbl (flipBit w i) k now' rm ctx multi s' p' o' rd' c' c1')
+    (a' : Accepted V' tbl (flipBit w i) k' now' rm ctx multi s' p' o' rd' c' c1')
     (hd : c'.data = c.data) (hm : rd'.mac = rd.mac) :
     i / 8 < 2 ∨ (s ≤ i / 8 ∧ i / 8 < p) ∨ (p' = p ∧ p + 4 ≤ i / 8 ∧ i / 8 < p + 8)
       ∨ (p + 10 ≤ i / 8 ∧ i / 8 + (tsigTail rd).length < w.length) := by
@@ -183,8 +183,8 @@ theorem flip_same_pair_location (V V' : Verifier) (tbl : List AlgEntry) (w : Byt
   have hne := flipBit_getElem_eq w i hi
   have hag : ∀ x, x ≠ i / 8 → (flipBit w i)[x]? = w[x]? := fun x hx => flipBit_getElem_ne w i x hx
   obtain ⟨hs, hbody, _, hoid, ht, hf, hrest⟩ :=
-    same_input_same_content V V' tbl w (flipBit w i) k now now' rm ctx multi s s' p p' o o' rd rd' c c' c1 c1' ho ho' a a' hd.symm
-  obtain ⟨herr, hoth⟩ := hrest hfirst
+    same_input_same_content V V' tbl w (flipBit w i) k k' now now' rm ctx multi s s' p p' o o' rd rd' c c' c1 c1' ho ho' a a' hd.symm
+  obtain ⟨herr, hoth, _, _⟩ := hrest hfirst
   subst hs
   -- the fixed-layout tails coincide
   have htail : tsigTail rd' = tsigTail rd := by
